@@ -363,6 +363,34 @@ func genCaco3Cache(repo string, fs facts) (string, error) {
 		}
 		return true
 	})
+	// remove is reached on every miss: its `if err := ctx.cache.remove(..)` is a statement of the
+	// function body itself, not nested under another condition
+	removeUncond := false
+	for _, st := range bn.Body.List {
+		if is, ok := st.(*ast.IfStmt); ok && is.Init != nil && strings.Contains(p.src(is.Init), "ctx.cache.remove(") {
+			removeUncond = true
+		}
+		if es, ok := st.(*ast.ExprStmt); ok && strings.Contains(p.src(es), "ctx.cache.remove(") {
+			removeUncond = true
+		}
+	}
+	// buildCache.put overwrites (Replace), buildCache.get treats an expired record as missing
+	putMethod := ""
+	if pf := p.fn("buildCache", "put"); pf != nil {
+		ast.Inspect(pf.Body, func(n ast.Node) bool {
+			if c, ok := n.(*ast.CallExpr); ok {
+				if s := p.src(c.Fun); strings.HasPrefix(s, "c.cache.") {
+					putMethod = strings.TrimPrefix(s, "c.cache.")
+				}
+			}
+			return true
+		})
+	}
+	getChecksExpiry := false
+	if gf := p.fn("buildCache", "get"); gf != nil {
+		src := p.src(gf.Body)
+		getChecksExpiry = strings.Contains(src, "c.expire") && strings.Contains(src, ".Before(")
+	}
 	if _, ok := pos["build"]; !ok {
 		return "", fmt.Errorf("buildNode: no call of n.rule.build")
 	}
@@ -381,6 +409,7 @@ func genCaco3Cache(repo string, fs facts) (string, error) {
 		"action_fields_set_for_rule": ruleSet, "action_fields_set_for_out": outSet,
 		"src_digest_direct": srcDirect, "stat_fields_filled": statFilled, "same_stat_fields": compared,
 		"expire_hours": expire, "buildNode_call_order": order,
+		"remove_unconditional": removeUncond, "put_method": putMethod, "get_checks_expiry": getChecksExpiry,
 	}
 
 	var b strings.Builder
@@ -396,6 +425,9 @@ func genCaco3Cache(repo string, fs facts) (string, error) {
 	fmt.Fprintf(&b, "def memoCheckedFirst : Bool := %s\ndef hitNeedsSameBuilt : Bool := %s\n", c10Bool(memoFirst), c10Bool(hitNeedsSame))
 	fmt.Fprintf(&b, "def removeBeforeBuild : Bool := %s\ndef putBeforeBuild : Bool := %s\ndef hasPut : Bool := %s\n", c10Bool(removeBefore), c10Bool(putBefore), c10Bool(hasPut))
 	fmt.Fprintf(&b, "def putOnlyForRules : Bool := %s\ndef clearsStaleOuts : Bool := %s\n", c10Bool(putGuarded), c10Bool(clears))
+	fmt.Fprintf(&b, "/-- `remove` is a statement of buildNode's body (reached on every miss, live record or not) -/\ndef removeUnconditional : Bool := %s\n", c10Bool(removeUncond))
+	fmt.Fprintf(&b, "/-- the KV method `buildCache.put` stores with -/\ndef putMethod : String := %s\n", leanStr(putMethod))
+	fmt.Fprintf(&b, "/-- `buildCache.get` answers not-found for a record older than the expiry -/\ndef getChecksExpiry : Bool := %s\n", c10Bool(getChecksExpiry))
 	b.WriteString("\nend PubModel.Gen.Caco3Cache\n")
 	return b.String(), nil
 }
